@@ -152,6 +152,8 @@ def linear_candidates(rng, m):
          [[1, 2, [i]] for i in range(M)],                     # N/2
          [[(-1) ** i, 2, [i]] for i in range(M)]]             # alternating halves
     c += [[[1, 1, [i]]] for i in range(M)]                    # n_i
+    # uniform non-dyadic weights: eigenvalues k*3/10, k*7/10, k/3 (one coefficient only: every state with k particles adds the same doubles)
+    c += [[[3, 10, [i]] for i in range(M)], [[7, 10, [i]] for i in range(M)], [[1, 3, [i]] for i in range(M)]]
     return c
 
 
